@@ -700,7 +700,7 @@ class BrownianInterval(brownian_base.BaseBrownian, _Interval):
         if self._cache_size is None:  # cache_size=None corresponds to infinite cache.
             cache_size = 100
         else:
-            cache_size = min(self._cache_size, 100)
+            cache_size = max(min(self._cache_size, 100), 1)  # cache_size=0 must not give pieces of length zero
 
         self._tree_dt = min(self._tree_dt, dt)
         # Rationale: We are prepared to hold `cache_size` many things in memory, so when making steps of size `dt`
